@@ -566,10 +566,12 @@ pub fn parsed_instructions(text: &str) -> Vec<Instruction> {
 /// DEFCAL, PRAGMA EXTERN), CALLs, expressions with memory references, on top of `program_text`.
 pub fn ast_program_text(rng: &mut Rng, cfg: &ProgCfg) -> String {
     let mut s = String::new();
-    if rng.chance(1, 2) {
+    let has_foo = rng.chance(2, 3);
+    if has_foo {
         s.push_str("PRAGMA EXTERN foo \"INTEGER (x : mut INTEGER, y : REAL)\"\n");
     }
-    if rng.chance(1, 4) {
+    let has_bar = rng.chance(1, 2);
+    if has_bar {
         s.push_str("PRAGMA EXTERN bar \"(z : INTEGER)\"\n");
     }
     if rng.chance(1, 40) {
@@ -598,7 +600,10 @@ pub fn ast_program_text(rng: &mut Rng, cfg: &ProgCfg) -> String {
         if !line.starts_with("DEFFRAME") && !line.starts_with("    ") && rng.chance(1, 8) {
             let a = REGIONS[rng.below(cfg.nreg as u64) as usize];
             let b = REGIONS[rng.below(cfg.nreg as u64) as usize];
-            match rng.below(5) {
+            // a CALL of an undeclared function makes scheduling fail: keep that rare
+            let pick = rng.below(5);
+            let undeclared = (pick == 1 && !has_bar) || ((pick == 0 || pick == 2) && !has_foo);
+            match if undeclared && !rng.chance(1, 10) { 3 } else { pick } {
                 0 => out.push_str(&format!("CALL foo {a}[0] {b}[1] 1.5\n")),
                 1 => out.push_str(&format!("CALL bar {a}\n")),
                 2 => out.push_str(&format!("CALL foo {a}[0] {b}\n")),
